@@ -29,6 +29,19 @@ def gen_case(rng, idx):
         tp, sp = rng.choice(variants)
         if tp is not None and rng.random() < 0.3:
             tp = [list(reversed(ps)) for ps in tp]
+        if tp is not None and rng.random() < 0.5:
+            # the caller decides which task lists which parameter: drop a parameter from one task's
+            # list (it may still be listed by another task that uses it), or list a parameter of
+            # another task that this task's loss does not depend on (it then receives zeros)
+            tp = [list(ps) for ps in tp]
+            allq = sorted({q for ps in tp for q in ps})
+            ti = rng.randrange(len(tp))
+            if tp[ti] and rng.random() < 0.6:
+                tp[ti].remove(rng.choice(tp[ti]))
+            elif allq:
+                q = rng.choice(allq)
+                if q not in tp[ti]:
+                    tp[ti].append(q)
         if sp is not None and rng.random() < 0.5:
             sp = list(reversed(sp))
         call = {"entry": "mtl", "losses": losses, "features": feats, "tasks": tp, "shared": sp,
